@@ -47,6 +47,7 @@ def functions_of(text):
                             for _ in range(3):
                                 h = re.sub(r"<[^<>]*>", "", h)
                             h = re.sub(r"\s+", " ", h).strip()
+                            h = re.sub(r"\bwhere\b.*$", "", h).strip()
                             m = re.match(r"^(.+?) for (.+)$", h)
                             def short(x): return x.replace(" ", "").split("::")[-1]
                             p = ("%s as %s" % (short(m.group(2)), short(m.group(1)))) if m else short(h)
